@@ -373,7 +373,7 @@ class Probe:
                 tail = self.tail_for(u, int.from_bytes(p, 'little'), lengths, tailB)
             newfixed = fixed[:off] + p + fixed[off + w:]
             buf = newfixed + tail
-            replay = {'unit': u['name'], 'offset': off, 'width': w, 'kind': codec.describe(), 'pattern': p.hex(),
+            replay = {'struct': key, 'unit': u['name'], 'offset': off, 'width': w, 'kind': codec.describe(), 'pattern': p.hex(),
                       'mode': mode, 'base': (fixed + tailB).hex(), 'bytes': buf.hex(), 'python_attribute': u['attr']}
             ctx.case('%s|%s|r|%s|%s' % (key, u['name'], p.hex(), mode), nontrivial=(p != base_raw))
             ctx.count('read:' + codec.describe().split('(')[0])
@@ -432,7 +432,12 @@ class Probe:
                 except Exception as e:
                     got, got_err = None, e
                 replay['expected_value'] = repr(exp)
-                replay['observed_value'] = repr(got) if got_err is None else 'unreadable: %r' % (got_err,)
+                if got_err is not None:
+                    replay['observed_value'] = 'unreadable: %r' % (got_err,)
+                elif isinstance(codec, nm.Length) and hasattr(got, '__len__'):
+                    replay['observed_value'] = 'a sequence of length %d' % len(got)
+                else:
+                    replay['observed_value'] = repr(got)[:160]
                 if outside:
                     self.violation(s, u['name'], 'offset-or-width',
                                    'writing bytes [%d,%d) (C++ member %s) changed Python attribute(s) %s; expected only %s'
@@ -550,7 +555,16 @@ def translate(ctx):
 def run(ctx, r, only=None):
     layout = r['structs']
     table = {s['key']: s for s in layout}
-    members = nm.members()
+    try:
+        nm._messages()
+    except Exception as e:
+        raise fv.InfraError('fusion_engine_client.messages cannot be imported: %r' % (e,))
+    try:
+        members = nm.members()
+    except Exception as e:
+        # the map names Python classes / enum members that no longer exist: report it, probe with the default rules
+        ctx.violation('C02/name-map/python-name-missing', 'the name map refers to a Python name that does not exist: %r' % (e,), {})
+        members = {}
     for key, text in r['tiling']:
         ctx.violation('C02/%s/*/layout-not-packed' % key,
                       'members do not tile the struct (padding inserted by the compiler, or a member the header reader missed): ' + text,
@@ -565,7 +579,12 @@ def run(ctx, r, only=None):
     for s in layout:
         if only and s['key'] != only['struct']:
             continue
-        subj = nm.subject_for(s)
+        try:
+            subj = nm.subject_for(s)
+        except Exception as e:
+            ctx.violation('C02/%s/*/python-counterpart-missing' % s['key'],
+                          'the Python counterpart named by the map cannot be found: %r' % (e,), {'struct': s['key']})
+            continue
         if subj is None:
             no_counterpart.append(s['key'])
             continue
@@ -591,6 +610,7 @@ def run(ctx, r, only=None):
     cov['per_struct'] = {k: {x: v[x] for x in ('python', 'sizeof', 'python_default_size', 'leaves', 'units', 'read_probes', 'write_probes')
                              if x in v} for k, v in pr.report.items()}
     cov['compilers'] = r['compilers']
+    cov['generated_per_struct_lemmas'] = 4 * len(layout) + 1
     for smp in pr.expect[1:4]:
         ctx.sample({k: smp[1].get(k) for k in ('struct', 'unit', 'pattern', 'python_attribute', 'what')})
 
